@@ -47,7 +47,7 @@ type (
 		pad [15]int64
 		id  int64
 	}
-	zPad  struct {
+	zPad struct {
 		_ [0]string
 		_ struct{}
 	}
@@ -55,7 +55,7 @@ type (
 )
 
 func always[E any](a, b E) bool { return true }
-func zero[E any](int) (z E)      { return }
+func zero[E any](int) (z E)     { return }
 
 var (
 	kInt = &kind[int]{name: "int", mk: func(i int) int { return i }, same: func(a, b int) bool { return a == b }, show: strconv.Itoa}
